@@ -69,6 +69,14 @@ func c04Sessions(tier string) [][]string {
 		[]string{"func sg3(u){println(\"sg3\", 1/u[0][0]); 1}", "sg3([[x]])", "sg3([[y]])", "sg3([[x]])"},
 		[]string{"func ty(u){println(\"ty\", u[0]/2); u}", "ty([3])", "ty([3.0])", "ty([3])"},
 		[]string{"func ty2(u){println(\"ty2\", u.k/2); 1}", "ty2({\"k\": a})", "ty2({\"k\": x})"},
+		// every argument is part of the key, also the fifth and later ones; variadic calls
+		[]string{"func s5(u1,u2,u3,u4,u5){println(\"s5\", u5); u1+u5}", "s5(1,2,3,4,a)", "s5(1,2,3,4,b)", "s5(1,2,3,4,a)"},
+		[]string{"func s6(u1,u2,u3,u4,u5,u6){println(\"s6\"); u5-u6}", "s6(a,a,a,a,b,c)", "s6(a,a,a,a,c,b)", "s6(a,a,a,a,b,b)"},
+		[]string{"func vs(u,..){println(\"vs\", ..); len(..)+u}", "vs(1,2,3,4,a)", "vs(1,2,3,4,b)", "vs(1,2,3,4,a,b)"},
+		// del of a name: bound or not at the time of the first call
+		[]string{"drop = func(){del(zz)}", "drop()", "zz = a", "drop()", "catch(zz).err"},
+		[]string{"zz = a; drop = func(){del(zz)}", "drop()", "zz = b", "drop()", "catch(zz).err"},
+		[]string{"dm = func(){mq = {1: a}; del(mq[1]); len(mq)}", "dm()", "dm()"},
 		// closures inside a returned container are results with state too
 		[]string{"func mkc(n){cn=n; [()=>{cn=cn+1; cn}]}", "q1=mkc(a); q1[0]()", "q2=mkc(a); q2[0]()", "q1[0]()", "q2[0]()"},
 		[]string{"func mkm(n){cn=n; {\"inc\": ()=>{cn=cn+1; cn}}}", "q1=mkm(a); q1.inc()", "q2=mkm(a); q2.inc()", "q1.inc()"},
